@@ -1148,6 +1148,287 @@ mod mr {
     }
 }
 
+// ------------------------------------------------------------------------------------------------ MultiReader, wake-time polls
+//
+// `mrw`: the real `MultiReader` over passive sources, where the TASK's waker — when a source wakes it — polls the
+// reader at once, on the spot, before the waker call returns (the most eager scheduler there can be). A task woken
+// because a source has something must find it: the ready flag has to be published before the wake.
+// `mrs`: the same property under real threads: producers write through real byte channels from their own threads, the
+// consumer thread polls with a waker-driven loop; rounds of simultaneous writes separated by quiet periods.
+mod mrw {
+    use super::*;
+    use futures::Stream;
+    use std::cell::RefCell;
+    use std::collections::VecDeque;
+    use std::pin::Pin;
+    use std::rc::Rc;
+    use std::sync::Arc;
+    use std::task::{Context, Poll, Wake, Waker};
+    use swimos_utilities::multi_reader::MultiReader;
+
+    #[derive(Default)]
+    struct Source {
+        q: VecDeque<u64>,
+        closed: bool,
+        waker: Option<Waker>,
+    }
+    struct SourceStream(Rc<RefCell<Source>>);
+    impl Stream for SourceStream {
+        type Item = u64;
+        fn poll_next(self: Pin<&mut Self>, cx: &mut Context<'_>) -> Poll<Option<u64>> {
+            let mut s = self.0.borrow_mut();
+            if let Some(x) = s.q.pop_front() {
+                Poll::Ready(Some(x))
+            } else if s.closed {
+                Poll::Ready(None)
+            } else {
+                s.waker = Some(cx.waker().clone());
+                Poll::Pending
+            }
+        }
+    }
+
+    thread_local! {
+        static READER: RefCell<Option<MultiReader<SourceStream>>> = const { RefCell::new(None) };
+        static WOKE: RefCell<Vec<String>> = const { RefCell::new(Vec::new()) };
+    }
+
+    /// The task's waker: poll right now.
+    struct PollOnWake;
+    impl Wake for PollOnWake {
+        fn wake(self: Arc<Self>) {
+            self.wake_by_ref()
+        }
+        fn wake_by_ref(self: &Arc<Self>) {
+            let r = poll_reader();
+            WOKE.with(|w| w.borrow_mut().push(r));
+        }
+    }
+
+    fn poll_reader() -> String {
+        let waker = Waker::from(Arc::new(PollOnWake));
+        let mut cx = Context::from_waker(&waker);
+        READER.with(|r| match r.try_borrow_mut() {
+            Ok(mut g) => match g.as_mut() {
+                Some(reader) => match Pin::new(reader).poll_next(&mut cx) {
+                    Poll::Ready(Some(x)) => format!("item:{}", x),
+                    Poll::Ready(None) => "none".to_string(),
+                    Poll::Pending => "pending".to_string(),
+                },
+                None => "noreader".to_string(),
+            },
+            Err(_) => "reentrant".to_string(), // woken from inside a poll: the task is already running
+        })
+    }
+
+    pub fn run_case(ops: &[String], t: &mut Trace) {
+        READER.with(|r| *r.borrow_mut() = Some(MultiReader::new()));
+        let mut sources: Vec<Rc<RefCell<Source>>> = vec![];
+        for op in ops {
+            WOKE.with(|w| w.borrow_mut().clear());
+            let parts: Vec<&str> = op.split_whitespace().collect();
+            let add = |sources: &mut Vec<Rc<RefCell<Source>>>| {
+                let s: Rc<RefCell<Source>> = Default::default();
+                sources.push(s.clone());
+                READER.with(|r| r.borrow_mut().as_mut().unwrap().add(SourceStream(s)));
+            };
+            let res: String = match parts.as_slice() {
+                ["add"] => {
+                    add(&mut sources);
+                    "ok".into()
+                }
+                ["addn", k] => {
+                    for _ in 0..k.parse::<usize>().unwrap_or(0) {
+                        add(&mut sources);
+                    }
+                    "ok".into()
+                }
+                ["push", s, x] => match (s.parse::<usize>().ok().and_then(|i| sources.get(i)), x.parse::<u64>()) {
+                    (Some(src), Ok(x)) => {
+                        let w = {
+                            let mut g = src.borrow_mut();
+                            if g.closed {
+                                None
+                            } else {
+                                g.q.push_back(x);
+                                g.waker.take()
+                            }
+                        };
+                        if let Some(w) = w {
+                            w.wake();
+                        }
+                        "ok".into()
+                    }
+                    _ => "bad-op".into(),
+                },
+                ["close", s] => match s.parse::<usize>().ok().and_then(|i| sources.get(i)) {
+                    Some(src) => {
+                        let w = {
+                            let mut g = src.borrow_mut();
+                            g.closed = true;
+                            g.waker.take()
+                        };
+                        if let Some(w) = w {
+                            w.wake();
+                        }
+                        "ok".into()
+                    }
+                    None => "bad-op".into(),
+                },
+                ["poll"] => poll_reader().replace(':', " "),
+                ["wakepoll"] => "ok".into(),
+                _ => "bad-op".into(),
+            };
+            let woke = WOKE.with(|w| w.borrow().join(","));
+            t.op(op, format!("{} woke={}", res, if woke.is_empty() { "-".to_string() } else { woke }));
+        }
+        READER.with(|r| *r.borrow_mut() = None);
+    }
+}
+
+mod mrs {
+    use super::*;
+    use futures::{SinkExt, Stream};
+    use std::num::NonZeroUsize;
+    use std::pin::Pin;
+    use std::sync::atomic::{AtomicBool, Ordering};
+    use std::sync::{Arc, Barrier};
+    use std::task::{Context, Poll, Wake, Waker};
+    use std::time::{Duration, Instant};
+    use swimos_messages::protocol::{RawRequestMessageDecoder, RawRequestMessageEncoder};
+    use swimos_utilities::byte_channel::byte_channel;
+    use swimos_utilities::multi_reader::MultiReader;
+    use tokio_util::codec::{FramedRead, FramedWrite};
+
+    struct Flag {
+        woken: AtomicBool,
+    }
+    impl Wake for Flag {
+        fn wake(self: Arc<Self>) {
+            self.woken.store(true, Ordering::SeqCst);
+        }
+        fn wake_by_ref(self: &Arc<Self>) {
+            self.woken.store(true, Ordering::SeqCst);
+        }
+    }
+
+    /// `stress <producers> <rounds>`: in every round all producers write one command at the same moment (barrier),
+    /// then the socket is quiet; the consumer spins on its wake flag and polls when woken.
+    pub fn stress(producers: usize, rounds: usize) -> String {
+        let mut reader: MultiReader<FramedRead<_, RawRequestMessageDecoder>> = MultiReader::new();
+        let mut writers = vec![];
+        for _ in 0..producers {
+            let (tx, rx) = byte_channel(NonZeroUsize::new(4096).unwrap());
+            reader.add(FramedRead::new(rx, RawRequestMessageDecoder));
+            writers.push(FramedWrite::new(tx, RawRequestMessageEncoder));
+        }
+        let barrier = Arc::new(Barrier::new(producers + 1));
+        let mut handles = vec![];
+        for (p, mut w) in writers.into_iter().enumerate() {
+            let b = barrier.clone();
+            handles.push(std::thread::spawn(move || {
+                for r in 0..rounds {
+                    b.wait();
+                    let body = format!("{}:{}", p, r);
+                    let m: BytesRequestMessage = RequestMessage {
+                        origin: Uuid::from_u128(p as u128),
+                        path: RelativeAddress::new(BytesStr::from("/n"), BytesStr::from("l")),
+                        envelope: Operation::Command(Bytes::from(body.into_bytes())),
+                    };
+                    let _ = futures::executor::block_on(w.send(m));
+                    b.wait();
+                }
+            }));
+        }
+        let flag = Arc::new(Flag { woken: AtomicBool::new(true) });
+        let waker = Waker::from(flag.clone());
+        let mut cx = Context::from_waker(&waker);
+        let (mut delivered, mut dup, mut order_bad, mut stuck) = (0usize, 0usize, 0usize, 0usize);
+        let mut next = vec![0usize; producers];
+        for r in 0..rounds {
+            barrier.wait();
+            let mut got = 0usize;
+            let mut last_progress = Instant::now();
+            while got < producers {
+                let woken = flag.woken.swap(false, Ordering::SeqCst);
+                let rescue = !woken && last_progress.elapsed() > Duration::from_millis(250);
+                if !woken && !rescue {
+                    std::hint::spin_loop();
+                    continue;
+                }
+                // poll until pending
+                let mut any = false;
+                loop {
+                    match Pin::new(&mut reader).poll_next(&mut cx) {
+                        Poll::Ready(Some(Ok(m))) => {
+                            any = true;
+                            got += 1;
+                            delivered += 1;
+                            let body = match &m.envelope {
+                                Operation::Command(b) => String::from_utf8_lossy(b).to_string(),
+                                _ => String::new(),
+                            };
+                            let mut it = body.split(':');
+                            let (p, rr) = (
+                                it.next().and_then(|x| x.parse::<usize>().ok()).unwrap_or(usize::MAX),
+                                it.next().and_then(|x| x.parse::<usize>().ok()).unwrap_or(usize::MAX),
+                            );
+                            if p >= producers {
+                                order_bad += 1;
+                            } else if rr < next[p] {
+                                dup += 1;
+                            } else if rr > next[p] {
+                                order_bad += 1;
+                                next[p] = rr + 1;
+                            } else {
+                                next[p] = rr + 1;
+                            }
+                        }
+                        Poll::Ready(Some(Err(_))) => {
+                            order_bad += 1;
+                            break;
+                        }
+                        Poll::Ready(None) => break,
+                        Poll::Pending => break,
+                    }
+                }
+                if any {
+                    last_progress = Instant::now();
+                    if rescue {
+                        // an item was sitting in a channel while the task had not been woken for it; a wake that is
+                        // merely late (its thread was descheduled) still arrives: give it generous time
+                        std::thread::sleep(Duration::from_millis(300));
+                        if !flag.woken.load(Ordering::SeqCst) {
+                            stuck += 1;
+                        }
+                    }
+                } else if rescue {
+                    if last_progress.elapsed() > Duration::from_secs(5) {
+                        return format!("pushed={} delivered={} dup={} disorder={} stuck={} dead=1 round={}",
+                                       (r + 1) * producers, delivered, dup, order_bad, stuck, r);
+                    }
+                }
+            }
+            barrier.wait();
+        }
+        for h in handles {
+            let _ = h.join();
+        }
+        format!("pushed={} delivered={} dup={} disorder={} stuck={} dead=0", rounds * producers, delivered, dup, order_bad, stuck)
+    }
+
+    pub fn run_case(ops: &[String], t: &mut Trace) {
+        for op in ops {
+            let parts: Vec<&str> = op.split_whitespace().collect();
+            let o = match parts.as_slice() {
+                ["stress", p, r] => stress(p.parse().unwrap_or(2), r.parse().unwrap_or(10)),
+                _ => "bad-op".into(),
+            };
+            t.op(op, o);
+        }
+    }
+}
+
 // ------------------------------------------------------------------------------------------------ route generator
 
 const R_NODES: [&str; 7] = ["/a", "/b", "a b", "true", "/a%20b", "/A", "n"];
@@ -1368,6 +1649,16 @@ fn main() {
                         let ops = mr::gen_ops(&mut rng);
                         mr::run_case(&ops, &mut t);
                     }
+                    "mrw" => {
+                        // the marker op `wakepoll` tells a replay which engine the case belongs to
+                        let mut ops: Vec<String> = vec!["wakepoll".to_string()];
+                        ops.extend(mr::gen_ops(&mut rng).into_iter().filter(|o| o != "empty"));
+                        mrw::run_case(&ops, &mut t);
+                    }
+                    "mrs" => {
+                        let ops = vec![format!("stress {} {}", rng.range(2, 24), rng.range(20, 120))];
+                        mrs::run_case(&ops, &mut t);
+                    }
                     "route" => {
                         let ops = gen_route_ops(&mut rng);
                         sock::run_case(&ops, &mut t);
@@ -1381,6 +1672,14 @@ fn main() {
             let mut t = Trace::create(&out);
             for (i, case) in ops.iter().enumerate() {
                 t.case(i);
+                if case.first().map(|o| o.starts_with("stress")).unwrap_or(false) {
+                    mrs::run_case(case, &mut t);
+                    continue;
+                }
+                if case.first().map(|o| o == "wakepoll").unwrap_or(false) {
+                    mrw::run_case(case, &mut t);
+                    continue;
+                }
                 if case.first().map(|o| matches!(o.split_whitespace().next(), Some("add" | "addn" | "poll" | "push" | "close" | "empty"))).unwrap_or(false) {
                     mr::run_case(case, &mut t);
                     continue;
